@@ -136,7 +136,7 @@ def gen_helper_family(rng, stem, utf8, om, exemplars=False, units=False):
             from prometheus_client.utils import floatToGoString
             for b in bounds + [math.inf]:
                 acc += rng.randrange(0, 5)
-                if exemplars and rng.random() < 0.3:
+                if exemplars and kind == 'histogram' and rng.random() < 0.3:
                     buckets.append((floatToGoString(b), acc, ex()))
                 else:
                     buckets.append((floatToGoString(b), acc))
